@@ -60,7 +60,13 @@ def rule_A4(tree: Tree) -> RuleResult:
         r.instances += 1
         facts = cfg2.facts_at(cfg2.node_of(c))
         ok = fact_holds(facts, "self.can_decrypt", True) and (fact_holds(facts, "self.decryptor is None", False) or fact_holds(facts, "self.decryptor is not None", True))
-        r.ob(ok, Finding("A4", "session:Session.handle_handshake_finished:gate", f"`{src(c, 60)}` must be guarded by can_decrypt and a decryptor", m.line(c)))
+        # only records that follow the ChangeCipherSpec *of their own direction* are encrypted
+        own_dir = (fact_holds(facts, "self.server_cipher_change", True) and fact_holds(facts, "isserver", True)) or \
+            (fact_holds(facts, "self.client_cipher_change", True) and fact_holds(facts, "isserver", False))
+        r.ob(ok and own_dir, Finding("A4", "session:Session.handle_handshake_finished:gate",
+                                     f"`{src(c, 60)}` must be guarded by can_decrypt, a decryptor and the cipher-change flag of the record's *own* direction "
+                                     f"(server_cipher_change ∧ isserver, or client_cipher_change ∧ ¬isserver): a plaintext handshake record of the other direction pushed through "
+                                     f"the decryptor desynchronises stream-cipher / sequence state", m.line(c)))
     # generate_keys: every return before the Decryptor construction is dominated by can_decrypt = False
     gk = tree.func("session", "Session.generate_keys")
     cfg3 = cfg_of(gk.node)
